@@ -219,6 +219,19 @@ func (i *interpreter) formatOperand(fr *frame, verb byte, flags string, arg valu
 		}
 		return lit(fmt.Sprintf("%"+flags+string(verb), x))
 	case *smt.Term:
+		if x.W == 0 {
+			// a symbolic boolean is printed by forking on it
+			return lit(fmt.Sprintf("%"+flags+string(verb), i.path.decide(x)))
+		}
+		if i.path.smallDomain(x, 1<<40) {
+			// small finite domain: fork over the values
+			u := i.path.concretize(x)
+			if b := basicOf(itf.t); b != nil && signedKind(b.Kind()) {
+				sh := 64 - uint(x.W)
+				return lit(fmt.Sprintf("%"+flags+string(verb), int64(u<<sh)>>sh))
+			}
+			return lit(fmt.Sprintf("%"+flags+string(verb), u))
+		}
 		i.path.imprecise++
 		return lit("<?>")
 	case *value:
